@@ -224,7 +224,6 @@ def plan(tier):
         yield P(k=1, per=3, send_buffer=40), 1
         yield P(k=2, per=3, batch=True, send_buffer=96), 1
         yield P(k=1, per=2, inbound="dwr-on-data"), 1
-        yield P(k=1, per=1, inbound="dwr-on-data"), 2
         yield P(k=1, per=1, inbound="app"), 1
         yield P(k=2, per=1, inbound="dwr"), 1
         yield P(k=2, per=2), 1
@@ -234,8 +233,6 @@ def plan(tier):
         yield P(k=2, per=1, role="client", inbound="dwr"), 1
         yield P(k=2, per=2, send_buffer=96), 1
         yield P(k=1, per=1), 2
-        yield P(k=1, per=2), 2
-        yield P(k=1, per=1, inbound="dwr"), 2
 
 
 def _shard(rep, arg):
